@@ -23,6 +23,9 @@ type Entity struct {
 
 	// guards the description, which the detailed discovery of a remote entity may update at any time
 	muxDescription sync.RWMutex
+
+	// guards the address, the device part of a remote entity is completed by the detailed discovery
+	muxAddress sync.RWMutex
 }
 
 var _ api.EntityInterface = (*Entity)(nil)
@@ -47,6 +50,9 @@ func NewEntity(eType model.EntityTypeType, deviceAddress *model.AddressDeviceTyp
 }
 
 func (r *Entity) Address() *model.EntityAddressType {
+	r.muxAddress.RLock()
+	defer r.muxAddress.RUnlock()
+
 	return r.address
 }
 
